@@ -23,11 +23,13 @@ class Defs:
     (i.e. the assignment dominates the use in structured code without loops re-entering).  Names that are
     augmented-assigned, or whose latest candidate sits in a branch not containing the use, stay opaque."""
 
-    def __init__(self, fn, extra_scopes=()):
+    def __init__(self, fn, extra_scopes=(), opaque_mutated=True):
         self.fn = fn
+        self.opaque_mutated = opaque_mutated
         self.params = set(arg_names(fn)) | {a.arg for a in fn.args.kwonlyargs}
         self.all = {}  # name -> [(line, ranges, record)]
         self.multi = set()
+        self.mutated = set()
         self.loopvars = {}
         self.loops = {}  # name -> [(For stmt, tuple position or None, ordinal)]
         self._nloops = 0
@@ -51,6 +53,13 @@ class Defs:
                 self._bind(st.targets[0], st.value, st.lineno, ranges)
             elif isinstance(st, ast.AugAssign) and isinstance(st.target, ast.Name):
                 self.multi.add(st.target.id)
+            # containers updated in place: their value at a use is not their allocation, keep the name
+            for t in (st.targets if isinstance(st, ast.Assign) else [st.target] if isinstance(st, ast.AugAssign) else []):
+                if isinstance(t, ast.Subscript) and isinstance(t.value, ast.Name):
+                    self.mutated.add(t.value.id)
+            if isinstance(st, ast.Expr) and isinstance(st.value, ast.Call) and isinstance(st.value.func, ast.Attribute) and isinstance(st.value.func.value, ast.Name) \
+                    and st.value.func.attr in ("append", "extend", "add", "remove", "update", "insert", "sort", "fill"):
+                self.mutated.add(st.value.func.value.id)
             elif isinstance(st, ast.For):
                 self._nloops += 1
                 if isinstance(st.target, ast.Name):
@@ -94,9 +103,13 @@ class Defs:
                     best = (st, pos, k)
         return best
 
-    def lookup(self, name, line):
+    def alloc(self, name, line):
+        """The definition (allocation) of an in-place updated container reaching `line`."""
+        return self.lookup(name, line, _alloc=True)
+
+    def lookup(self, name, line, _alloc=False):
         """Definition record reaching a use of `name` at `line`, or None if the name must stay opaque."""
-        if name in self.multi or name not in self.all:
+        if name in self.multi or name not in self.all or (self.opaque_mutated and name in self.mutated and not _alloc):
             return None
         lst = self.all[name]
         if line is None:
